@@ -249,6 +249,45 @@ class Interp:
 
     def __init__(self):
         self.unmodelled: List[Tuple[ast.AST, str]] = []
+        self.if_convert = False
+        self._idiom = None
+
+    def merge_if(self, node, cps):
+        """if-conversion of a jump-free `if`: run both arms, merge differing locals into ite values.
+        Returns None when the arms have effects that cannot be merged (caller falls back to forking)."""
+        (t1, s1), (t2, s2) = cps
+        if t1 == t2:
+            return None
+        s_true, s_false = (s1, s2) if t1 else (s2, s1)
+        cond = s_true.facts[-1] if len(s_true.facts) > len(s_false.facts) - 1 and s_true.facts else None
+        # the distinguishing fact is the last one appended by split_cond
+        if not s_true.facts or not s_false.facts or c_not(s_true.facts[-1]) != s_false.facts[-1]:
+            return None
+        cond = s_true.facts[-1]
+        base_eff = len(s_true.effects)
+        o1 = self.block(node.body, s_true)
+        o2 = self.block(node.orelse, s_false)
+        if len(o1) != 1 or len(o2) != 1 or o1[0][1] is not None or o2[0][1] is not None:
+            return None
+        a, b = o1[0][0], o2[0][0]
+        if len(a.effects) != base_eff or len(b.effects) != base_eff or a.written.keys() != b.written.keys():
+            return None
+        merged = a
+        merged.facts = merged.facts[:-1]
+        seen = {id(x) for x in a.sites}
+        merged.sites = a.sites + [x for x in b.sites if id(x) not in seen]
+        for k in set(a.env) | set(b.env):
+            va, vb = a.env.get(k), b.env.get(k)
+            if va is None or vb is None:
+                merged.env[k] = va if vb is None else vb
+                continue
+            if repr(va) == repr(vb):
+                continue
+            mv = merge_vals(cond, va, vb)
+            if mv is None:
+                return None
+            merged.env[k] = mv
+        return [(merged, None)]
 
     # ---------------- hooks
     def attr(self, st: State, base: Val, name: str, node) -> Val:
@@ -324,7 +363,16 @@ class Interp:
             return [(st, None)]
         if isinstance(node, ast.If):
             out = []
-            for truth, s2 in self.cond_paths(node.test, st):
+            self._idiom = _default_zero_idiom(node)
+            try:
+                cps = self.cond_paths(node.test, st)
+            finally:
+                self._idiom = None
+            if self.if_convert and len(cps) == 2 and not _has_jump(node):
+                merged = self.merge_if(node, cps)
+                if merged is not None:
+                    return merged
+            for truth, s2 in cps:
                 body = node.body if truth else node.orelse
                 out.extend(self.block(body, s2))
             return out
@@ -451,7 +499,7 @@ class Interp:
         if isinstance(v, Num):
             if v.f.is_const():
                 return v.f.const_value() != 0
-            st.site("truthy", node, value=v.f)
+            st.site("truthy", node, value=v.f, idiom=getattr(self, "_idiom", None))
             return ("truthy", v.f)
         if isinstance(v, Str):
             return ("truthy-str", v.s) if "<" in v.s else bool(v.s)
@@ -707,9 +755,16 @@ class Interp:
             vals = [self.expr(a, st) for a in args]
             if len(vals) == 1 and isinstance(vals[0], SeqV):
                 s = vals[0]
-                if isinstance(s.elem, Num) and s.filt is None:
+                if isinstance(s.elem, Num):
                     st.site("loop", node, count=s.count, what=name)
-                    return Num(mk_red(name, s.var, s.count, s.elem.f, False))
+                    body = s.elem.f if s.filt is None else mk_ite(s.filt, s.elem.f, A("sym", "skip"))
+                    red = Num(mk_red(name, s.var, s.count, body, False))
+                    dflt = [kw for kw in node.keywords if kw.arg == "default"]
+                    if dflt:
+                        dv = self.expr(dflt[0].value, st)
+                        return Obj("ite", (("nonempty", repr(s)), red, dv))
+                    st.site("reduce-maybe-empty", node, seq=s, what=name)
+                    return red
             if all(isinstance(v, Num) for v in vals) and vals:
                 return Num(mk_fn(name, *[v.f for v in vals]))
             return Opaque(f"{name} over non-numbers")
@@ -874,6 +929,45 @@ class Interp:
 
     def e_Lambda(self, node, st):
         return Opaque("lambda")
+
+
+def merge_vals(cond, va: Val, vb: Val):
+    if isinstance(va, Num) and isinstance(vb, Num):
+        return Num(mk_ite(cond, va.f, vb.f))
+    if isinstance(va, BoolV) and isinstance(vb, BoolV):
+        if va.cond is True and vb.cond is False:
+            return BoolV(cond)
+        if va.cond is False and vb.cond is True:
+            return BoolV(c_not(cond))
+        return BoolV(("or", ("and", cond, va.cond), ("and", c_not(cond), vb.cond)))
+    if isinstance(va, NoneV) and isinstance(vb, NoneV):
+        return va
+    return Obj("ite", (cond, va, vb))
+
+
+def _has_jump(node) -> bool:
+    for n in ast.walk(node):
+        if isinstance(n, (ast.Return, ast.Raise, ast.Continue, ast.Break, ast.For, ast.While)):
+            return True
+    return False
+
+
+def _default_zero_idiom(node: ast.If):
+    """`if not x: x = 0`"""
+    t = node.test
+    if isinstance(t, ast.UnaryOp) and isinstance(t.op, ast.Not) and isinstance(t.operand, ast.Name) and not node.orelse and len(node.body) == 1:
+        b = node.body[0]
+        if (
+            isinstance(b, ast.Assign)
+            and len(b.targets) == 1
+            and isinstance(b.targets[0], ast.Name)
+            and b.targets[0].id == t.operand.id
+            and isinstance(b.value, ast.Constant)
+            and b.value.value in (0, 0.0)
+            and not isinstance(b.value.value, bool)
+        ):
+            return "default-zero"
+    return None
 
 
 def _as_load(node):
